@@ -92,6 +92,16 @@ TRANSLATORS.append(("tr_markings", _markings))
 GEN_FILES.append("Gen/MarkingFacts.v")
 
 
+def _stores():
+    import tr_stores
+    text, _ = tr_stores.translate(common.REPO, None)
+    common.write_if_changed(os.path.join(common.COQ, "Gen", "StoreFacts.v"), text)
+
+
+TRANSLATORS.append(("tr_stores", _stores))
+GEN_FILES.append("Gen/StoreFacts.v")
+
+
 def run_all():
     out = []
     for name, fn in TRANSLATORS:
